@@ -7,7 +7,7 @@ import z3
 
 from . import terms as T
 from . import arrays as A
-from .terms import EngineError, PyExc, N, ctx
+from .terms import EngineError, PyExc, N, ctx, Q
 from .arrays import BArr, CArr, is_arr, emap
 
 _REAL_MODULES = {}
@@ -773,7 +773,11 @@ def str_format(fmt, args):
     out = []
     pos = 0
     ai = 0
-    for m in re.finditer(r'%(?:(\.\d+)?([ifds%]))', fmt):
+    # every conversion in the format must be one the model understands: anything else is a CHECKER limitation, not a Python error
+    for m0 in re.finditer(r'%([-+ #0]*\d*(?:\.\d+)?[a-zA-Z%]?)', fmt):
+        if not re.fullmatch(r'(\.\d+)?[ifdsg%]', m0.group(1)):
+            raise EngineError('format conversion %%%s is not modelled' % m0.group(1))
+    for m in re.finditer(r'%(?:(\.\d+)?([ifdsg%]))', fmt):
         out.append(fmt[pos:m.start()])
         pos = m.end()
         prec, kind = m.group(1), m.group(2)
@@ -802,6 +806,11 @@ def str_format(fmt, args):
             if isinstance(a, str) or a is None:
                 raise PyExc('TypeError', '%i format: a real number is required')
             out.append(str(T.strunc(a)))
+        elif kind == 'g':
+            if isinstance(a, str) or a is None:
+                raise PyExc('TypeError', 'must be real number, not str')
+            p_ = max(int(prec[1:]) if prec else 6, 1)
+            out.append(format_general(a, p_))
         else:
             if isinstance(a, str) or a is None:
                 raise PyExc('TypeError', 'must be real number, not str')
@@ -818,6 +827,31 @@ def str_format(fmt, args):
         from . import text as TX
         return TX.norm(TX.SymStr(out))
     return ''.join(out)
+
+
+def format_general(a, p):
+    """'%.pg': p significant digits; for 1e-4 <= |x| < 10^p Python uses fixed notation with p-1-e decimals (e = decade of x) and strips
+    trailing zeros.  The VALUE of that text is round(|x| * 10^k) / 10^k with k = p-1-e (a carry into the next decade gives the same
+    value), which is all that float() of the field can observe; the decade is a case split.  Outside that range: not modelled."""
+    from . import text as TX
+    itp = _ITP[0]
+    if T.is_concrete(a):
+        q = T.fr(a)
+        return ('%.' + str(p) + 'g') % float(q)
+    x = T.to_real(N(a))
+    mag = z3.If(x >= 0, x, -x)
+    if itp.fork(x == 0, 'g-zero'):
+        return '0'
+    for e in range(-4, p):
+        lo = Q(10 ** e) if e >= 0 else Q(1, 10 ** (-e))
+        hi = Q(10 ** (e + 1)) if e + 1 >= 0 else Q(1, 10 ** (-e - 1))
+        if itp.fork(z3.And(mag >= lo, mag < hi), 'g-decade=%d' % e):
+            k = p - 1 - e
+            D = T.fresh('dec', T.I)
+            scaled = mag * (10 ** k)
+            itp.assume(z3.And(D >= 0, scaled - z3.ToReal(D) <= Q(1, 2), z3.ToReal(D) - scaled <= Q(1, 2)))
+            return TX.SymStr([TX.Sign(x < 0), TX.Num(D, k, dot=k > 0)])
+    raise EngineError('%%.%dg of a value outside [1e-4, 1e%d): scientific notation is not modelled' % (p, p))
 
 
 def format_fixed(q, k):
